@@ -463,3 +463,56 @@ def h_sizing_shipped(tier='quick', replay=None):
         samples.append({'shape': shp, 'verdict': 'unsat'})
     return {'status': 'confirmed', 'queries': queries,
             'samples': samples[:6] + [{'translator_validated_on': validated}]}
+
+
+# ------------------------------------------------------------------------------
+# Lemma F: IEEE-754 double division followed by floor / ceil equals integer
+# floor / ceil of the quotient for operands up to 2^k  (QF_BVFP, bit-blasted)
+#
+@custom_obligation(
+    funcs=['(lemma about CPython float arithmetic used by '
+           'radical/pilot/pmgr/launching/base.py:_prepare_pilot: math.ceil(a / b))'],
+    shapes={'quick': [{'k': 8}], 'thorough': [{'k': 12}]},
+    bounds='operands a, b: unsigned integers 0 <= a <= 2^k, 1 <= b <= 2^k '
+           '(quick k=8, thorough k=12); beyond that "float division behaves '
+           'like real division" stays an assumption',
+    timeout={'quick': 300, 'thorough': 1500})
+def h_lemma_float_division(tier='quick', replay=None, k=8):
+    """floor/ceil(fp64(a) / fp64(b)) == integer floor/ceil of a/b"""
+    if replay is not None:
+        a, b = replay['a'], replay['b']
+        check(math.floor(a / b) == a // b and math.ceil(a / b) == -((-a) // b),
+              'float floor/ceil of %s/%s differ from the integer ones', a, b)
+        return
+    W = k + 2
+    a, b = z3.BitVecs('a b', W)
+    F, rne = z3.Float64(), z3.RNE()
+    q   = z3.fpDiv(rne, z3.fpToFPUnsigned(rne, a, F),
+                        z3.fpToFPUnsigned(rne, b, F))
+    flb = z3.fpToUBV(z3.RTZ(), z3.fpRoundToIntegral(z3.RTN(), q),
+                     z3.BitVecSort(W))
+    ceb = z3.fpToUBV(z3.RTZ(), z3.fpRoundToIntegral(z3.RTP(), q),
+                     z3.BitVecSort(W))
+    idiv  = z3.UDiv(a, b)
+    iceil = z3.If(z3.URem(a, b) == 0, idiv, idiv + 1)
+    s = z3.Solver()
+    s.set('timeout', 1400000 if k > 8 else 280000)
+    s.add(z3.ULE(a, 2 ** k), z3.ULE(b, 2 ** k), b != 0)
+    # vacuity: the premises are satisfiable
+    if str(s.check()) != 'sat':
+        return {'status': 'error', 'why': 'lemma premises unsatisfiable'}
+    s.add(z3.Or(flb != idiv, ceb != iceil))
+    t0 = time.time()
+    r  = str(s.check())
+    if r == 'sat':
+        m = s.model()
+        return {'status': 'refuted', 'queries': 2,
+                'args': {'a': m[a].as_long(), 'b': m[b].as_long()},
+                'exc': 'Violation: float division lemma fails'}
+    if r != 'unsat':
+        return {'status': 'unknown', 'queries': 2, 'why': 'z3 answered ' + r}
+    return {'status': 'confirmed', 'queries': 2,
+            'solver_s': round(time.time() - t0, 1),
+            'samples': [{'lemma': 'floor/ceil(fp64(a)/fp64(b)) == int '
+                                  'floor/ceil, a,b <= 2^%d' % k,
+                         'verdict': 'unsat'}]}
